@@ -74,9 +74,9 @@ MkAckFin(c, cond) ==
   LET hd == HdrDir(c.h.hdr, "TR") IN
   [h |-> hd, t |-> "ACK", acked |-> "FIN", cond |-> cond, tstat |-> "ACTIVE", plen |-> LenACK(hd), rt |-> "ok"]
 
-\* _checksum_calculation(size): asserts a source file; NativeFilestore.calculate_checksum
+\* _checksum_calculation(size): NativeFilestore.calculate_checksum
 ChecksumS(c, cfg, size) ==
-  IF c.h.req.mdOnly THEN [c |-> ExcS(c, "AssertionError"), v |-> <<0, 0>>]
+  IF c.h.req.mdOnly THEN [c |-> c, v |-> <<0, 0>>]    \* metadata only: no file data, null checksum
   ELSE IF cfg.chk # "NULL" /\ cfg.chk # "MODULAR" /\ c.h.segLen = 0 THEN [c |-> ExcS(c, "ValueError"), v |-> <<0, 0>>]
   ELSE [c |-> c, v |-> FileChecksum(cfg.chk, c.h.file, size)]
 
